@@ -286,6 +286,13 @@ func c14VMResult(cc *c14Compiled, f c14Func, args []c14Val, structs map[string][
 		return "!no-method", ""
 	}
 	st, fault := c14RunVM(cc, off, args)
+	if strings.HasPrefix(fault, "STEP LIMIT") && c14Runaway <= 2 {
+		// a rare long run of a correct program, or a miscompiled loop: give it ten times the steps once
+		saved := c14StepLimit
+		c14StepLimit *= 10
+		st, fault = c14RunVM(cc, off, args)
+		c14StepLimit = saved
+	}
 	if fault != "" {
 		if strings.HasPrefix(fault, "GO PANIC") || strings.HasPrefix(fault, "STEP LIMIT") {
 			return "!" + fault, fault
